@@ -341,6 +341,7 @@ def run(repo, rep, tier):
     if r10.sites < 3:
         raise AnalysisError('C10.R10: only %d functions fetch values with '
                             '.get()' % r10.sites)
+    validation_implies_agreement(repo, rep)
     # ---- R3 ---------------------------------------------------------------
     passthrough = {}      # function name -> param index of `copy`
     for path in MOCK_FILES:
@@ -704,3 +705,66 @@ def _direct(root, name_node):
     if isinstance(root, (ast.List, ast.Tuple, ast.Set)):
         return any(e is name_node for e in root.elts)
     return False
+
+
+def validation_implies_agreement(repo, rep):
+    """C10.R11: ProviderDispatcher._validate_property accepts a property
+    only if it agrees with the class declaration in every attribute the
+    function compares (type, is_array, ...): on every path that returns
+    normally, `inst.A != cls.A` is known to be false.  A comparison that is
+    and-ed with another condition (e.g. skipped for NULL values) lets
+    mis-typed properties into the store, which then disagrees with the
+    reference map."""
+    from ..paths import return_paths
+    from ..relfacts import split
+    r11 = rep.rule('C10.R11', 'a validated property agrees with its '
+                   'declaration in every compared attribute')
+    PD = 'pywbem_mock/_providerdispatcher.py'
+    f = repo.cls(PD, 'ProviderDispatcher').methods.get('_validate_property')
+    if f is None:
+        raise AnalysisError('ProviderDispatcher._validate_property vanished')
+    r11.functions.add(f.fq)
+    attrs = {}
+    for c in ast.walk(f.node):
+        if isinstance(c, ast.Compare) and len(c.ops) == 1 and \
+                isinstance(c.ops[0], (ast.NotEq, ast.Eq)) and \
+                isinstance(c.left, ast.Attribute) and \
+                isinstance(c.comparators[0], ast.Attribute) and \
+                c.left.attr == c.comparators[0].attr and \
+                norm(c.left.value) != norm(c.comparators[0].value):
+            attrs[c.left.attr] = (norm(c.left), norm(c.comparators[0]))
+    if len(attrs) < 2:
+        raise AnalysisError('_validate_property: attribute comparisons not '
+                            'found (%s)' % sorted(attrs))
+    paths = return_paths(f, max_paths=2000, inline=False)
+    if paths is None:
+        raise AnalysisError('_validate_property: too many paths')
+    for a, (l, r) in sorted(attrs.items()):
+        r11.sites += 1
+        bad = None
+        for p in paths:
+            ok = False
+            for t, pol in p.facts:
+                for t2, p2 in split(t, pol):
+                    s = norm(t2)
+                    if (s in ('%s != %s' % (l, r), '%s != %s' % (r, l))
+                            and not p2) or \
+                            (s in ('%s == %s' % (l, r), '%s == %s' % (r, l))
+                             and p2):
+                        ok = True
+            if not ok:
+                bad = p
+                break
+        r11.ob(bad is None, '_validate_property|' + a,
+               {'attribute': a, 'paths': len(paths)})
+        if bad is not None:
+            conds = ' / '.join(('' if pol else 'not ') + norm(t, 50)
+                               for t, pol in bad.facts[:5])
+            rep.finding(r11, f.qualname, '%s != %s' % (l, r),
+                        'conditional-validation', PD, f.node.lineno,
+                        'a path accepts the property without having '
+                        'established %s == %s (conditions on the path: %s): '
+                        'CreateInstance / ModifyInstance store a property '
+                        'that disagrees with the class declaration instead '
+                        'of rejecting it with CIM_ERR_INVALID_PARAMETER'
+                        % (l, r, conds))
